@@ -98,7 +98,8 @@ class ReferenceBlueprint(Blueprint):
             raise ColumnNotFoundError("Can't build Reference, col2 unknown")
 
         if self.parser:
-            table1 = self.parser.locate_table(self.schema1, self.table1)
+            # an inline reference starts at the table that declares it, which is known by its own name
+            table1 = self.parser.locate_table(self.schema1, self.table1, by_alias=not self.inline)
         else:
             raise RuntimeError('Parser is not set')
 
